@@ -163,7 +163,8 @@ def run(db, chk):
         C06.order_rule(db, Effects(db), chk, uname, "C01-E4", only_op=MST)
     chk.absorb(db, "C09", {"C09-P2"}, "C01-E6", "the basin graph / resolver scratch state is reset at every "
                "update (shared with C09-P2): stale edges of a previous call leave pits unresolved",
-               pred=lambda o: "basin_graph" in o["instance"] or "mst_sink_resolver" in o["instance"],
+               pred=lambda o: "basin_graph" in o["instance"] or "mst_sink_resolver" in o["instance"]
+               or "set_base_levels" in o["instance"] or "set_mask" in o["instance"],
                min_instances=20)
     chk.count_scenarios(n_sc, True)
 
